@@ -905,10 +905,17 @@ def _run(spec, rec, d, S):
                if (sec in dclab.dfn.CFG_METADATA or sec == "user")
                and sec != "fmt_tdms"}     # documented: tdms section is dropped
     try:
-        ds.export.hdf5(target, features=None if req is None else list(req),
-                       filtered=filtered,
-                       logs=flags["logs"], tables=flags["tables"], basins=basins,
-                       skip_checks=skip_checks, **kw)
+        if spec["seed"] % 4 == 1:
+            # the documented parameter order, given positionally
+            rec.cls("call:positional")
+            ds.export.hdf5(target, None if req is None else list(req), filtered,
+                           flags["logs"], flags["tables"], basins,
+                           skip_checks=skip_checks, **kw)
+        else:
+            ds.export.hdf5(target, features=None if req is None else list(req),
+                           filtered=filtered,
+                           logs=flags["logs"], tables=flags["tables"], basins=basins,
+                           skip_checks=skip_checks, **kw)
     except NotImplementedError:
         if expect_reject:
             rec.skip("documented-rejection:slicing-non-sliceable-column")
@@ -1244,7 +1251,15 @@ def verify_tsv(spec, rec, d, S, ds, ridx, sel, want, tag):
         req = [f.upper() if i == 0 else f for i, f in enumerate(req)]
     path = d / "out.tsv"
     name = path if spec["seed"] % 2 else d / "out"
-    ds.export.tsv(name, req, filtered=filtered, override=bool(spec["seed"] % 5 == 0))
+    override = bool(spec["seed"] % 5 == 0)
+    if override:
+        # an earlier export at the same place has to be replaced, not extended
+        path.write_text("# stale\n# a\tb\n1.0\t2.0\n3.0\t4.0\n", encoding="utf-8")
+        rec.cls("tsv:override-existing")
+    if spec["seed"] % 4 == 2:
+        ds.export.tsv(name, req, None, filtered, override)     # positional form
+    else:
+        ds.export.tsv(name, req, filtered=filtered, override=override)
     rec.check(path.exists(), "tsv/file-missing", "")
     if not path.exists():
         return
